@@ -45,7 +45,11 @@ CHECKS["C15"] = ("proof", "effect-commutativity of map loops over MIR: allowed i
                  "For payload objects without duplicate keys, all member orders and all value sources: object iterators are only created and stepped, map loops exit only on exhaustion or Break, the only state carried across iterations is the accumulator, the per-field state locals (written, never read in the loop), the iterator and the result collection (insert only), and the tag is removed by key before iteration; hence value and report set do not depend on member order.",
                  TB + "; the order of reports inside an accumulated error may differ (statement says set); derived code per catalogue entry", "§5 C15")
 
-NOT_YET = {p: 'check not yet built in this revision of /verif (construction order in DESIGN.md §8); will be claimed when its rule set is armed' for p in ['C05', 'C13', 'C14'] + ['C%02d' % i for i in range(16, 21)]}
+CHECKS["C16"] = ("proof", "generator-level rules over the MIR of the proc-macro crate (merge guards, parser routing, reader loops, shape dispatch, panic census) + compile-fail witnesses with compiling twins",
+                 "For all derive inputs: single-valued attributes are only set under a dominating 'already set => Err' test on a witness that merge maintains, parsers write attributes only through merge, every #[deserr] attribute is parsed and merged with `?`, unknown names / rename_all values / trailing tokens return Err, validate_container_attributes rejects the listed combinations and dominates all use, unsupported shapes lead only to compile errors, the macro's panic sites are discharged. 100 (quick) / 320 (thorough) poisoned derive inputs must be rejected by a derive-issued diagnostic while their twins compile.",
+                 TB + "; rustc's verdict on the witness programs; syn invariants (named fields have identifiers, parse_quote! of fixed templates); decides the listed causes, not every conceivable unsupported input", "§5 C16")
+
+NOT_YET = {p: 'check not yet built in this revision of /verif (construction order in DESIGN.md §8); will be claimed when its rule set is armed' for p in ['C05', 'C13', 'C14'] + ['C%02d' % i for i in range(17, 21)]}
 
 
 def main():
